@@ -103,6 +103,9 @@ type LoopCase struct {
 	// been found undecodable the instance goes on - merges its peers and publishes its own data
 	// (1: one blob that is no gzip stream; 2: two blobs - no gzip stream, and a gzip stream holding a DBI field whose
 	// declared length exceeds the message; 3: a gzip stream cut in the middle; 4: an empty object)
+	// NOT used by any registered check: when the damaged blobs are dismissed depends on free-running goroutines
+	// (downloader, receiver), which makes the harness's idle detection and its known-finding exclusion unsound for
+	// these cases (DESIGN.md 8.4).
 	OwnCorruptOnly int `json:"own_corrupt_only,omitempty"`
 	// OnlyTxnIDs (C14's use of this harness): only the header-transaction-id oracle decides; what the
 	// content oracles (C03/C09) would report is left to the checks of those properties
@@ -1245,9 +1248,7 @@ func genLoopCase(t *rapid.T) LoopCase {
 	c.SweeperRuns = !c.Sweeper && rapid.IntRange(0, 4).Draw(t, "sweeper_runs") == 0
 	c.OwnAtStart = rapid.IntRange(0, 4).Draw(t, "own_at_start") == 0
 	c.Pad = rapid.IntRange(0, 3).Draw(t, "pad") == 0
-	if k := rapid.IntRange(0, 5).Draw(t, "own_corrupt_only"); k == 0 && !c.OwnAtStart {
-		c.OwnCorruptOnly = rapid.IntRange(1, 4).Draw(t, "own_corrupt_kind")
-	}
+
 	nkeys := rapid.IntRange(1, 3).Draw(t, "nkeys")
 	if rapid.IntRange(0, 2).Draw(t, "start?") > 0 {
 		for i := 0; i < rapid.IntRange(1, 3).Draw(t, "nstart"); i++ {
@@ -1474,14 +1475,6 @@ func TestC03Enum(t *testing.T) {
 						if !yield(enumLoop{Native: native, Point: p, Kind: k, PeerNoop: false, LocalFirst: true, ReceiveOnly: true}) {
 							return
 						}
-						// the only blob under the instance's own name is undecodable
-						if k == "insert" {
-							for _, lf := range []bool{false, true} {
-								if !yield(enumLoop{Native: native, Point: p, Kind: k, PeerNoop: false, LocalFirst: lf, OwnCorruptOnly: 1}) {
-									return
-								}
-							}
-						}
 						// an overwrite by a value that is a suffix of the stored one
 						if k == "overwrite" {
 							for _, lf := range []bool{false, true} {
@@ -1643,37 +1636,6 @@ func TestC04LoopEnum(t *testing.T) {
 						} {
 							e.Native, e.Point, e.Kind = native, p, k
 							if !yield(e) {
-								return
-							}
-						}
-					}
-				}
-			}
-		},
-		func(e enumLoop, o *vcore.Obs) error {
-			c := e.toCase()
-			st, err := runLoopCase(c, o)
-			classifyLoop(c, st, o)
-			if err != nil {
-				return err
-			}
-			o.NonTrivial(st.appBetween)
-			return nil
-		})
-}
-
-// ---- C08 inside the real loop: an undecodable blob under the instance's OWN name does not block the instance ----
-
-func TestC08OwnCorruptEnum(t *testing.T) {
-	points := loopYieldPoints[:nMainPoints]
-	vcore.RunEnum(t, vcore.Config{Property: "C08", Inflight: true,
-		Rule: "enumeration over the real sync loop: the only blobs stored under the instance's own name are undecodable (4 kinds: no gzip stream; that plus a gzip stream with a DBI field longer than the message; a gzip stream cut in the middle; an empty object); the instance has local data, merges two peer snapshots and its application commits at EVERY yield point x {native, shadow} x {another commit precedes or not}: the damaged blob is ignored after the first attempt, the loop becomes idle and the newest own snapshot then carries the application's data (the instance is not blocked); non-trivial = the commit fell between two LS transactions"},
-		func(yield func(enumLoop) bool) {
-			for _, native := range []bool{true, false} {
-				for _, p := range points {
-					for _, lf := range []bool{false, true} {
-						for kind := 1; kind <= 4; kind++ {
-							if !yield(enumLoop{Native: native, Point: p, Kind: "insert", LocalFirst: lf, OwnCorruptOnly: kind}) {
 								return
 							}
 						}
